@@ -15,6 +15,11 @@ func gen(tier string, seed uint64, idx int) interface{} {
 	if r.Bool(1, 3) {
 		levels = append(levels, "c", "dd")
 	}
+	if r.Bool(1, 8) {
+		// a level that begins with '$' somewhere behind the first level is an
+		// ordinary level (MQTT 4.7.2 speaks of topic names that begin with '$')
+		levels = append(levels, "$s")
+	}
 	flevels := append(append([]string{}, levels...), "+", "#")
 	name := func(alpha []string, filter bool) string {
 		n := 1 + r.Intn(4)
@@ -24,6 +29,9 @@ func gen(tier string, seed uint64, idx int) interface{} {
 				s += "/"
 			}
 			l := alpha[r.Intn(len(alpha))]
+			if i == 0 && l == "$s" {
+				l = "a"
+			}
 			if filter && l == "#" && i != n-1 && !r.Bool(1, 20) {
 				l = "+"
 			}
